@@ -130,6 +130,16 @@ def build_ops(sig, rng):
         tq = (t / sr).to(u.s)
         add("snippet_q", "quantity", lambda: pb.snippet(sig, tq, k))
         add("snippet_bad", "invalid", lambda: pb.snippet(sig, n + 2.5, 1))
+        if n >= 2:
+            # offsets a few 1e-9 samples past a whole sample (time_shift treats such shifts as zero and returns its argument)
+            k2 = int(rng.integers(0, n - 1))
+            tiny = float(gen.pick(rng, [8e-9, 3e-9, 1e-9, 5e-9]))
+            add("snippet_tinyfrac", "nearzero", lambda: pb.snippet(sig, k2 + tiny, 1))
+            if sig.start_time is not None:
+                tt_ = sig.start_time + ((k2 + tiny) / sr)
+                add("snippet_tinyfrac_time", "nearzero", lambda: pb.snippet(sig, tt_, 1))
+            tq_ = ((k2 + tiny) / sr).to(u.s)
+            add("snippet_tinyfrac_q", "nearzero", lambda: pb.snippet(sig, tq_, 1))
         sh_arr = rng.uniform(-2, 2, size=ss) if ss else float(rng.uniform(-2, 2))
         add("time_shift_arr", "array", lambda: pb.time_shift(sig, sh_arr, crop=bool(rng.integers(2))))
         nz = near_zero(rng)
@@ -205,8 +215,14 @@ def wl_ops(ctx, idx, rng):
     use_dask = (idx // 30) % 5 == 4
     n = int(gen.pick(rng, [1, 2, 5, 8, 16, 27]))
     nchan = None if clsname == "Signal" else int(gen.pick(rng, [1, 2, 4]))
-    sig, desc = gen.make_signal(rng, clsname, n, nchan=nchan, dask=use_dask, mem=mem, rate=gen.rand_rate(rng, lo=2, hi=7),
-                                fc=None if clsname == "Signal" else gen.rand_freq(rng, 3e8, 3e9))
+    meta = gen.pick(rng, ["rand", "rand", {}, {"k": [1, 2]}])
+    sig, desc = gen.make_signal(rng, clsname, n, nchan=nchan, dask=use_dask, mem=mem, rate=gen.rand_rate(rng, lo=0 if idx % 4 == 0 else 2, hi=7),
+                                fc=None if clsname == "Signal" else gen.rand_freq(rng, 3e8, 3e9), meta=meta, start=gen.rand_time(rng, p_none=0.15))
+    if isinstance(meta, dict):
+        ctx.count("oracle[meta_alias]")
+        if sig.meta is meta:
+            ctx.violation("no_mutation", "the constructor stored the caller's meta dict by reference (later edits of one change the other)",
+                          None, {"what": "meta_aliased", "op": "constructor", "empty_meta": not meta})
     root_before = snapshot.snap(sig)
     with probes.quiet():
         ops = build_ops(sig, rng)
@@ -217,6 +233,14 @@ def wl_ops(ctx, idx, rng):
         before = ctx.counters["snapshot_comparisons"]
         res, exc = run_op(ctx, label, fn)
         ran.append(label + ("!" if exc is not None else ""))
+        # an output must not share its (mutable) meta dict with the input: annotating the output would modify the input
+        for r_ in (res if isinstance(res, tuple) else (res,)):
+            if isinstance(r_, pb.Signal) and r_ is not sig and sig.meta is not None:
+                ctx.count("oracle[meta_alias]")
+                if r_.meta is sig.meta:
+                    ctx.violation("no_mutation", f"{label}: the result shares its meta dict object with the input signal", None,
+                                  {"what": "meta_aliased", "op": label, "empty_meta": not sig.meta})
+                    break
         if ctx.counters["snapshot_comparisons"] == before and label not in ("asarray",):
             ctx.count("ops_without_probe_event")
         ctx.bucket(label, clsname, mem if not use_dask else "dask", kind)
@@ -327,8 +351,9 @@ def wl_readers(ctx, idx, rng):
     before = {k: snapshot.snap(v) for k, v in vars(r).items()}
     n = int(rng.integers(0, 16))
     off = int(rng.integers(0, len(r) - n))
-    res, exc = ctx.call("no_mutation", r.read, off, n, where="reader.read")
-    res, exc = ctx.call("no_mutation", r.dask_read, off, n, where="reader.dask_read")
+    # exceptions are not this property's business (C11 judges them); only the state comparison below counts
+    res, exc = ctx.call("no_mutation", r.read, off, n, where="reader.read", expect="any")
+    res, exc = ctx.call("no_mutation", r.dask_read, off, n, where="reader.dask_read", expect="any")
     ctx.call("no_mutation", r.read, len(r), 5, expect=EOFError, where="reader.read beyond end")
     after = {k: snapshot.snap(v) for k, v in vars(r).items()}
     ctx.count("oracle[reader_state]")
